@@ -14,10 +14,10 @@ DISCHARGED, REFUTED, UNKNOWN, UNSUPPORTED = "discharged", "refuted", "unknown", 
 
 
 class Ob:
-    __slots__ = ("name", "instance", "pc", "goal", "status", "model", "solver_s", "backend", "replay", "detail",
+    __slots__ = ("observed_natively", "name", "instance", "pc", "goal", "status", "model", "solver_s", "backend", "replay", "detail",
                  "family", "bounded")
 
-    def __init__(self, name, instance, pc, goal, replay=None, detail="", family=None, bounded=False):
+    def __init__(self, name, instance, pc, goal, replay=None, detail="", family=None, bounded=False, observed_natively=False):
         self.name = name
         self.instance = instance
         self.pc = list(pc or [])
@@ -30,6 +30,7 @@ class Ob:
         self.detail = detail
         self.family = family or name.split("#")[0]
         self.bounded = bounded
+        self.observed_natively = observed_natively   # run-time monitor finding: seen on the real code in this very run
 
     @property
     def key(self):
@@ -265,6 +266,7 @@ class Check:
 
     def cross_check(self, limit_s=600):
         """Thorough tier: every non-ground obligation is re-discharged on cvc5; disagreement = fault."""
+        limit_s = getattr(self, "cross_check_limit_s", limit_s)
         t0 = time.time()
         n = 0
         for ob in self.obs:
@@ -306,7 +308,7 @@ class Check:
                 "paths": self.paths, "node_counts": self.node_counts, "inlined": sorted(self.inlined),
                 "assumed_calls": self.assumed_calls, "declared": self.instances_declared,
                 "generated": self.instances_generated, "samples": self.samples, "extra": ex, "notes": self.notes,
-                "audits": self.audits, "audit_mismatch": self.audit_mismatch}
+                "audits": self.audits, "audit_mismatch": self.audit_mismatch, "bounded": list(self.bounded)}
 
     def merge(self, d):
         for r in d["obs"]:
@@ -329,6 +331,9 @@ class Check:
         self.notes.extend(d["notes"])
         self.audits += d["audits"]
         self.audit_mismatch.extend(d["audit_mismatch"])
+        for b in d.get("bounded", []):
+            if b not in self.bounded:
+                self.bounded.append(b)
         for k, v in d["extra"].items():
             if isinstance(v, list):
                 cur = self.extra.setdefault(k, [])
@@ -390,7 +395,10 @@ class Check:
                 continue
             # refuted: replay natively
             confirmed, rtext, rargs = None, "", None
-            if ob.replay is not None:
+            if ob.replay is not None and getattr(ob, "observed_natively", False):
+                kind, rargs = ob.replay
+                confirmed, rtext = True, ob.detail
+            elif ob.replay is not None:
                 kind, rargs = ob.replay
                 try:
                     if "__builder_error__" in rargs:
